@@ -406,6 +406,8 @@ func (e *Engine) havocLoopWrites(st *State, fr *Frame, li *loopInfo) {
 	}
 	if w.maps {
 		e.havocMaps(st)
+	} else {
+		e.assumeMapWF(st)
 	}
 	// call logs may have grown by an unknown amount
 	hv := map[string]bool{}
@@ -431,6 +433,9 @@ func (e *Engine) havocLoopWrites(st *State, fr *Frame, li *loopInfo) {
 			// iterator created outside, advanced inside
 			el := st.iter[it]
 			st.iter[it] = e.ctx.Fresh("visited_lp", el.Sort)
+			st.iterCount[it] = e.ctx.Fresh("niter_lp", SInt)
+			st.Assume(Le(IntLit(0), st.iterCount[it]))
+			st.iterMod[it] = e.ctx.Fresh("itermod_lp", SBool)
 		}
 	}
 	e.havocGhost(st, w)
